@@ -295,6 +295,96 @@ func rotationInPlace(t *testing.T, r *ev.Run) {
 		rotationInPlaceAt(t, r, past)
 	}
 	staleAndExpired(t, r)
+	staleRefreshFails(t, r)
+}
+
+// staleRefreshFails: the interval has elapsed and the key's record cannot be re-read (every read of the intermediate
+// key's record, or of the system key's, fails while the operation runs - retries included). "Re-reads the key's record once before using it": the
+// operation cannot use the key it could not re-check, so it reports the error; the next operation, with the
+// metastore healthy again, re-reads once and succeeds.
+func staleRefreshFails(t *testing.T, r *ev.Run) {
+	for _, nc := range []namedCfg{{"simple", world.Default(0, 0, 0)}, {"lru100", func() world.Cfg {
+		c := world.Default(0, 0, 0)
+		c.IKPolicy, c.IKCap, c.SKPolicy, c.SKCap = "lru", 100, "slru", 100
+		return c
+	}()}, {"shared-lfu64", func() world.Cfg {
+		c := world.Default(0, 0, 0)
+		c.SharedIK, c.IKPolicy, c.IKCap = true, "lfu", 64
+		return c
+	}()}} {
+		for _, op := range []string{"decrypt", "encrypt"} {
+			for _, unreadable := range []string{"_IK_part0_svc_prod", "_SK_svc_prod"} { // whose record cannot be read during the operation
+				name := fmt.Sprintf("stale-refresh-fails/%s/%s/%s-unreadable", nc.name, op, unreadable[1:3])
+				journal("c20 " + name)
+				func() {
+					defer func() {
+						if pv := recover(); pv != nil {
+							r.Violation("c20-panic", fmt.Sprintf("scenario %s: %v", name, pv), name)
+						}
+					}()
+					synctest.Test(t, func(t *testing.T) {
+						E, R := 100*time.Hour, 10*time.Minute
+						cfg := nc.cfg
+						cfg.Expire, cfg.Revoke, cfg.Precision = E, R, time.Minute
+						w := world.New("memguard")
+						defer w.Close()
+						time.Sleep(19 * time.Second)
+						ctx := context.Background()
+						f := w.Factory(cfg, "svc", "prod")
+						s, _ := f.GetSession("part0")
+						pl := []byte("x")
+						d, err := s.Encrypt(ctx, pl)
+						if err != nil {
+							r.Violation("c20-op-failed", fmt.Sprintf("%s: %v", name, err), name)
+							return
+						}
+						do := func() error {
+							if op == "decrypt" {
+								_, e := s.Decrypt(ctx, *world.CopyDRR(d))
+								return e
+							}
+							_, e := s.Encrypt(ctx, pl)
+							return e
+						}
+						if err := do(); err != nil {
+							r.Violation("c20-op-failed", fmt.Sprintf("%s: %v", name, err), name)
+							return
+						}
+						time.Sleep(R + time.Second) // every cached key is due for its re-check
+						msFrom := w.MS.N()
+						w.MS.FailReadsOf = unreadable
+						err = do()
+						w.MS.FailReadsOf = ""
+						fired := false
+						for _, mc := range w.MS.CallsFrom(msFrom) {
+							if mc.Fault != "" {
+								fired = true
+							}
+						}
+						r.Eval(1)
+						r.Count("stale_refresh_fault_cases", 1)
+						if fired && err == nil {
+							r.Violation("c20-key-used-without-reread", fmt.Sprintf("%s: the interval had elapsed and the re-read of a key record failed (%v), yet the %s succeeded: a cached key was used without being re-checked", name, w.MS.CallsFrom(msFrom), op), name)
+						}
+						if fired {
+							r.Distinct(name)
+						}
+						// healthy again: the next operation succeeds and re-reads what is still due
+						if err := do(); err != nil {
+							r.Violation("c20-op-failed", fmt.Sprintf("%s: after the fault was gone the %s fails: %v", name, op, err), name)
+						}
+						msFrom, kmsFrom := w.MS.N(), w.KMS.N()
+						if err := do(); err != nil || w.MS.N() != msFrom || w.KMS.N() != kmsFrom {
+							r.Violation("c20-external-call-within-interval", fmt.Sprintf("%s: the repeat after the recovery performed %d metastore and %d KMS call(s) (err=%v)", name, w.MS.N()-msFrom, w.KMS.N()-kmsFrom, err), name)
+						}
+						s.Close()
+						f.Close()
+						synctest.Wait()
+					})
+				}()
+			}
+		}
+	}
 }
 
 // staleAndExpired: a session is idle for longer than the revoke-check interval and its keys expire meanwhile. The
